@@ -144,10 +144,48 @@ func genOp(t *rapid.T) Op {
 }
 
 func genCase(t *rapid.T) Case {
-	return Case{
-		Mode: rapid.SampledFrom([]int{0, 0, 1, 3}).Draw(t, "mode"),
-		Ops:  rapid.SliceOfN(rapid.Custom(genOp), 1, 80).Draw(t, "ops"),
+	c := Case{Mode: rapid.SampledFrom([]int{0, 0, 1, 3}).Draw(t, "mode")}
+	n := rapid.IntRange(1, 80).Draw(t, "nops")
+	var seen []vt.Bytes // keys written so far: range queries are aimed at their split points
+	for i := 0; i < n; i++ {
+		op := genOp(t)
+		switch op.Kind {
+		case "put":
+			seen = append(seen, op.K)
+		case "batch":
+			for _, kv := range op.Batch {
+				if !kv.Del {
+					seen = append(seen, kv.K)
+				}
+			}
+		case "find", "seek":
+			// Aim at the structure: prefix = head of a written key, from/start = exactly the next piece of it
+			// (the rest of an extension below the prefix), or that piece with its last byte +-1.
+			if len(seen) > 0 && rapid.IntRange(0, 9).Draw(t, "aim") < 6 {
+				k := seen[rapid.IntRange(0, len(seen)-1).Draw(t, "aim_key")]
+				if len(k) >= 2 {
+					a := rapid.IntRange(1, len(k)-1).Draw(t, "aim_a")
+					b := rapid.IntRange(a, len(k)).Draw(t, "aim_b")
+					op.K = append(vt.Bytes{}, k[:a]...)
+					from := append(vt.Bytes{}, k[a:b]...)
+					if len(from) > 0 {
+						switch rapid.IntRange(0, 4).Draw(t, "aim_adj") {
+						case 0:
+							from[len(from)-1]--
+						case 1:
+							from[len(from)-1]++
+						}
+					}
+					op.From = from
+					if op.Kind == "find" {
+						op.NilFr = false
+					}
+				}
+			}
+		}
+		c.Ops = append(c.Ops, op)
 	}
+	return c
 }
 
 func sortedKeys(m map[string][]byte) []string {
@@ -298,6 +336,13 @@ func checkCase(c Case, o *vt.Obs) error {
 		}
 		if got, want := rootOf(tr), mptref.Root(model); got != want {
 			return where("root %x differs from reference root %x of content (%d keys)", got, want, len(model))
+		}
+		// Reads agree with the content on the LIVE trie too (in-memory nodes, not only what was flushed): every key, every step.
+		for _, k := range sortedKeys(model) {
+			v, err := tr.Get([]byte(k))
+			if err != nil || !bytes.Equal(v, model[k]) {
+				return where("after this op Get(%x) on the live trie = %x,%v want %x", k, short(v), err, short(model[k]))
+			}
 		}
 	}
 	// History independence against the implementation itself, fresh tries.
